@@ -14,12 +14,14 @@ func BackPropagate(t tensor.Tensor) (err error) {
 	for _, gctx := range order {
 		gctx.bpdirty = true
 	}
+	verifBP("begin", root)
 
 	// neutral tensor; same shape, all ones
 	err = accumulateGrad(root, toOnes(t))
 	if err != nil {
 		return
 	}
+	verifBP("seed", root)
 
 	for _, gctx := range order {
 		for _, e := range gctx.backEdges {
@@ -27,9 +29,11 @@ func BackPropagate(t tensor.Tensor) (err error) {
 			if err != nil {
 				return
 			}
+			verifEdge(root, gctx, e)
 		}
 	}
 
+	verifBP("end", root)
 	return nil
 }
 
